@@ -173,26 +173,60 @@ def _judge_seed(args):
     return (sid, "missed", "no additional violation")
 
 
+def _load_benign(pid):
+    """Committed, independently written and confirmed behaviour-PRESERVING patches for this property."""
+    import re
+
+    bdir = os.path.join(VERIF_DIR, "benign")
+    out = []
+    if not os.path.isdir(bdir):
+        return out
+    for d in sorted(os.listdir(bdir)):
+        pf = os.path.join(bdir, d, "patch.diff")
+        if d.startswith(pid + "-") and os.path.exists(pf):
+            patch = open(pf, encoding="utf-8").read()
+            files = re.findall(r"^\+\+\+ b/(\S+)", patch, re.M)
+            out.append((d, patch, files, None))
+    return out
+
+
+def _judge_benign(args):
+    """A behaviour-preserving refactoring must leave the verdict unchanged: no additional violation, no analysis error."""
+    sid, verdict, info = _judge_seed(args)
+    if verdict == "detected":
+        return (sid, "false-alarm", info)
+    if verdict == "analysis-error":
+        return (sid, "undecided", info)
+    if verdict == "missed":
+        return (sid, "silent", "")
+    return (sid, verdict, info)
+
+
 def thorough_extras(pid, propmod, root, ctx):
     variants = _load_variants(pid)
     seeds = _load_seeds(pid)
-    if not variants and not seeds:
+    benign = _load_benign(pid)
+    if not variants and not seeds and not benign:
         return {"audit": {"variants": 0, "note": "no variants registered for %s" % pid}}
     t0 = time.time()
     parent_overlay = os.environ.get("VERIF_OVERLAY") or None
     base_keys = {o.key: o.rule for o in ctx.obs if not o.ok}
     jobs = [(pid, root, v, base_keys, parent_overlay) for v in variants]
     sjobs = [(pid, root, sd, base_keys, parent_overlay) for sd in seeds]
-    workers = min(16, max(1, len(jobs) + len(sjobs)))
+    bjobs = [(pid, root, bd, base_keys, parent_overlay) for bd in benign]
+    workers = min(16, max(1, len(jobs) + len(sjobs) + len(bjobs)))
     if os.environ.get("VERIF_AUDIT_SERIAL"):
         results = [_judge(j) for j in jobs]
         sresults = [_judge_seed(j) for j in sjobs]
+        bresults = [_judge_benign(j) for j in bjobs]
     else:
         with Pool(workers) as pool:
             ar = pool.map_async(_judge, jobs, chunksize=1)
             sr = pool.map_async(_judge_seed, sjobs, chunksize=1)
+            br = pool.map_async(_judge_benign, bjobs, chunksize=1)
             results = ar.get()
             sresults = sr.get()
+            bresults = br.get()
     summary = {"detected": 0, "detected-other-rule": 0, "silent": 0, "skipped": 0, "missed": 0, "false-alarm": 0, "crash": 0, "analysis-error": 0}
     failures = []
     detail = []
@@ -209,7 +243,15 @@ def thorough_extras(pid, propmod, root, ctx):
         sdetail.append({"seed": sid, "verdict": verdict, "info": info})
         if verdict in ("missed", "crash"):
             failures.append("seeded/%s: %s (%s)" % (sid, verdict, info))
+    bsummary = {}
+    bdetail = []
+    for sid, verdict, info in bresults:
+        bsummary[verdict] = bsummary.get(verdict, 0) + 1
+        bdetail.append({"refactoring": sid, "verdict": verdict, "info": info})
+        if verdict in ("false-alarm", "crash", "undecided"):
+            failures.append("benign/%s: %s (%s)" % (sid, verdict, info))
     out = {
+        "benign_replay": {"refactorings": len(benign), "summary": bsummary, "detail": bdetail, "note": "committed patches of /verif/benign (behaviour-preserving refactorings of the anchored functions, written independently against the property text, each confirmed by the full test suite and an equivalence script) applied to a scratch overlay; every one must leave the verdict unchanged"},
         "seed_replay": {"seeds": len(seeds), "summary": ssummary, "detail": sdetail, "note": "committed patches of /verif/seeded (written independently against the property text, each confirmed to break behaviour while the test suite passes) applied to a scratch overlay; every one must raise a violation"},
         "audit": {
             "variants": len(variants),
